@@ -271,6 +271,10 @@ func StringTVFromDenotation(n *Node, d string) *sdcpb.TypedValue {
 		}
 		return &sdcpb.TypedValue{Value: &sdcpb.TypedValue_LeaflistVal{LeaflistVal: &sdcpb.ScalarArray{Element: elems}}}
 	}
+	if n.Type == "empty" {
+		// the type has no lexical value; a client can only send the empty typed value
+		return &sdcpb.TypedValue{Value: &sdcpb.TypedValue_EmptyVal{EmptyVal: &emptypb.Empty{}}}
+	}
 	return &sdcpb.TypedValue{Value: &sdcpb.TypedValue_StringVal{StringVal: d}}
 }
 
